@@ -264,11 +264,13 @@ class C05(core.Prop):
             force = 'na-text'
         act, kind, detail = mutate(rng, ref, precision, force)
 
-        def flag():
+        def flag(bogus=False):
             r = rng.random()
             names = [c['name'] for c in ref['cols']]
-            if rng.random() < 0.1:
+            if rng.random() < 0.3:
                 names = sorted(set(names) | {c['name'] for c in act['cols']})
+            if bogus and rng.random() < 0.06:
+                names = names + ['no_such_col']          # (a name neither frame has, among the columns to compare)
             if r < 0.55:
                 return None
             if r < 0.65:
@@ -282,7 +284,7 @@ class C05(core.Prop):
                     'act_index': None, 'ref_index': None, 'type_matching': rng.choice(LEVELS),
                     'entry': rng.choice(['csv', 'csv', 'csv', 'parquet', 'memory'])}
         return {'kind': 'pair', 'ref': ref, 'act': act, 'mut': kind, 'detail': detail,
-                'check_data': flag(), 'check_types': flag(), 'check_order': flag(), 'check_extra_cols': flag(),
+                'check_data': flag(True), 'check_types': flag(), 'check_order': flag(), 'check_extra_cols': flag(),
                 'sortby': rng.choice([None, None, None, [ref['cols'][0]['name']]]),
                 'condition': 'first-col-notnull' if kind in ('row-filtered-out', 'null-in-condition-column') and rng.random() < 0.8
                 else rng.choice([None, None, None, 'first-col-notnull']),
